@@ -358,7 +358,10 @@ class CFG:
             raise AnalysisError(f"match statement not supported (function {self.func.name})")
         # simple statement (Assign, AugAssign, AnnAssign, Expr, Delete, Pass, Import, Global, nested defs ...)
         n = self._simple(st, dangling, frames)
-        if not isinstance(st, (ast.FunctionDef, ast.AsyncFunctionDef, ast.ClassDef)) and _contains_raising(st):
+        if not isinstance(st, (ast.FunctionDef, ast.AsyncFunctionDef, ast.ClassDef)) and (_contains_raising(st) or (
+                # inside a try block with handlers the author expects its statements to raise: attribute access (a property or a
+                # validating descriptor) and subscripts count there, although elsewhere only calls do
+                any(fr.kind == "try" for fr in frames) and any(isinstance(x, (ast.Attribute, ast.Subscript)) for x in walk_local(st)))):
             self._route_exc(n, frames)
         return [(n, "n", None, True)]
 
